@@ -126,11 +126,41 @@ def run_shard(sh, ctx):
 		from gambit.sigs.base import SignatureArray, SignatureList
 		w0 = sh['widths'][0]
 		mixed = [arrs[sh['widths'][i % len(sh['widths'])]][i] for i in range(n)]     # the same sets, stored in alternating integer widths
+		wl = sh['widths'][-1]
+		empty_i = subsets.index(frozenset())
 		for cname, cont in (('list', list(arrs[w0])), ('SignatureList', SignatureList(list(arrs[w0]), None, dtype=np.dtype(w0))), ('SignatureArray', SignatureArray(arrs[w0], None, dtype=np.dtype(w0))),
-		                    ('mixed-width list', list(mixed)), ('mixed-width SignatureList', SignatureList(list(mixed), None))):
+		                    ('mixed-width list', list(mixed)), ('mixed-width SignatureList', SignatureList(list(mixed), None)),
+		                    ('one-reference SignatureArrays', None), ('chunks of two', None), ('pairwise, empty signatures last', None), ('pairwise on a list, empty signatures first', None)):
 			Tb = np.empty((n, n), dtype='f8')
-			for i in range(n):
-				Tb[i, :] = gm.jaccarddist_array(arrs[sh['widths'][-1]][i], cont) if 'list' != cname[-4:] or i % 2 else gm.jaccarddist_matrix([arrs[sh['widths'][-1]][i]], cont)[0]
+			if cname == 'one-reference SignatureArrays':
+				# every reference alone in its own concatenated array (a database / chunk that holds a single genome)
+				singles = [SignatureArray([arrs[w0][j]], None, dtype=np.dtype(w0)) for j in range(n)]
+				for i in range(n):
+					for j in range(n):
+						Tb[i, j] = gm.jaccarddist_array(arrs[wl][i], singles[j])[0]
+			elif cname == 'chunks of two':
+				# references ordered so that the empty set and its copy form a chunk of their own
+				order = [empty_i, empty_i] + [j for j in range(n) if j != empty_i]
+				sa = SignatureArray([arrs[w0][j] for j in order], None, dtype=np.dtype(w0))
+				Mx = gm.jaccarddist_matrix(SignatureArray(arrs[wl], None, dtype=np.dtype(wl)), sa, chunksize=2)
+				for pos, j in enumerate(order):
+					Tb[:, j] = Mx[:, pos]
+			elif cname.startswith('pairwise'):
+				# all-against-all of one collection that holds the empty set three times, at the end / at the start
+				order = [j for j in range(n) if j != empty_i]
+				order = order + [empty_i] * 3 if 'last' in cname else [empty_i] * 3 + order
+				seqs = [arrs[w0][j] for j in order]
+				P = gm.jaccarddist_pairwise(SignatureArray(seqs, None, dtype=np.dtype(w0)) if 'list' not in cname else SignatureList(seqs, None, dtype=np.dtype(w0)))
+				Tb[:] = np.nan
+				for a_, ja in enumerate(order):
+					for b_, jb in enumerate(order):
+						if a_ != b_ or ja != empty_i:
+							if not np.isnan(Tb[ja, jb]) and Tb[ja, jb] != P[a_, b_]:
+								ctx.violation('identity', f'{cname}: two copies of the same pair of sets get different distances {Tb[ja, jb]!r} and {P[a_, b_]!r}', dict(A=sorted(subsets[ja]), B=sorted(subsets[jb]), via=cname))
+							Tb[ja, jb] = P[a_, b_]
+			else:
+				for i in range(n):
+					Tb[i, :] = gm.jaccarddist_array(arrs[wl][i], cont) if 'list' != cname[-4:] or i % 2 else gm.jaccarddist_matrix([arrs[wl][i]], cont)[0]
 			ctx.count(f'bulk_tables:{cname}')
 			ctx.evals += n * n
 			for i in range(n):
@@ -238,7 +268,7 @@ def run_shard(sh, ctx):
 
 def finalize(merged, tier, seed, inconclusive):
 	c = merged['counters']
-	for n in ['triples_checked', 'add_common_element_checks', 'width_invariance_checks', 'class:union', 'class:near', 'width_combo:u2/u8', 'width_combo:u8/u2', 'mixed_width_pairs_with_unrepresentable_values', 'bulk_tables:list', 'bulk_tables:SignatureArray']:
+	for n in ['triples_checked', 'add_common_element_checks', 'width_invariance_checks', 'class:union', 'class:near', 'width_combo:u2/u8', 'width_combo:u8/u2', 'mixed_width_pairs_with_unrepresentable_values', 'bulk_tables:list', 'bulk_tables:SignatureArray', 'bulk_tables:one-reference SignatureArrays', 'bulk_tables:chunks of two', 'bulk_tables:pairwise, empty signatures last']:
 		if c.get(n, 0) == 0:
 			inconclusive.append(f'class never observed: {n}')
 	merged['notes'].setdefault('sanitizer_stage', {})
